@@ -171,6 +171,20 @@ def Rel (s : St) (ms : SeekM) : Prop :=
   ms.void = true ∨
     (s.live = true ∧ s.envOk = true ∧ ms.size = s.size ∧ ms.pos = s.pos ∧ ms.cur = s.cur ∧ Inv s)
 
+/-- the monitor's judgement of a `seek` line, in terms of the reference semantics -/
+theorem mon_seek (ms : SeekM) (hv : ms.void = false) (hc : ms.cur = .idle) (off wh res : Int) (err : Nat) :
+    monC20Seek.step ms (.seek off wh res err) =
+      match specSeek ms.size ms.pos off wh with
+      | some t => if err = 0 ∧ res = t then some { ms with pos := t } else none
+      | none => if err ≠ 0 then some ms else none := by
+  simp only [monC20Seek, specSeek, hv, hc]
+  by_cases hw : wh = 0 ∨ wh = 1 ∨ wh = 2
+  · by_cases ht : 0 ≤ (if wh = 0 then 0 else if wh = 1 then ms.pos else ms.size) + off ∧
+        (if wh = 0 then 0 else if wh = 1 then ms.pos else ms.size) + off ≤ ms.size
+    · simp [hw, ht]
+    · simp [hw, ht]
+  · simp [hw]
+
 theorem sim_step (s : St) (o : Obs) (s' : St) (ms : SeekM) (hR : Rel s ms) (hs : step s o = some s') :
     ∃ ms', monC20Seek.step ms o = some ms' ∧ Rel s' ms' := by
   have hi' : Inv s → Inv s' := fun hi => step_inv s o s' hi hs
@@ -194,37 +208,22 @@ theorem sim_step (s : St) (o : Obs) (s' : St) (ms : SeekM) (hR : Rel s ms) (hs :
       obtain ⟨hres, rfl⟩ := hs
       obtain ⟨hrange, _, _⟩ := hi he
       have href := seekRes_refines s off wh hrange hg.2.2.1
-      have hv : ms.void = false := by
-        cases hvv : ms.void with
-        | false => rfl
-        | true => rfl
       by_cases hvoid : ms.void = true
       · exact ⟨ms, by simp [monC20Seek, hvoid], Or.inl hvoid⟩
       · have hvoid' : ms.void = false := by simpa using hvoid
         have hcur : ms.cur = .idle := by rw [h3]; exact hg.2.1
-        simp only [monC20Seek, hvoid', hcur]
-        unfold specSeek at href
-        by_cases hw : wh = 0 ∨ wh = 1 ∨ wh = 2
-        · simp only [hw, if_true] at href ⊢
-          rw [h1, h2]
-          by_cases ht : 0 ≤ (if wh = 0 then 0 else if wh = 1 then s.pos else s.size) + off ∧
-              (if wh = 0 then 0 else if wh = 1 then s.pos else s.size) + off ≤ s.size
-          · simp only [ht, if_true] at href
-            rw [href] at hres
-            refine ⟨{ ms with pos := (if wh = 0 then 0 else if wh = 1 then s.pos else s.size) + off }, ?_, ?_⟩
-            · simp [ht, hres.1, hres.2]
-            · refine Or.inr ⟨hl, he, h1, ?_, h3, hinv'⟩
-              simp [href]
-          · simp only [ht, if_false] at href
-            refine ⟨ms, ?_, Or.inr ⟨hl, he, h1, ?_, h3, hinv'⟩⟩
-            · have : err ≠ 0 := by rw [hres.2]; exact href.2.1
-              simp [ht, this]
-            · simp [href.2.2, h2]
-        · simp only [hw, if_false] at href ⊢
-          refine ⟨ms, ?_, Or.inr ⟨hl, he, h1, ?_, h3, hinv'⟩⟩
-          · have : err ≠ 0 := by rw [hres.2]; exact href.2.1
-            simp [this]
-          · simp [href.2.2, h2]
+        rw [mon_seek ms hvoid' hcur]
+        rw [← h1, ← h2] at href
+        cases hspec : specSeek ms.size ms.pos off wh with
+        | some t =>
+          rw [hspec] at href; simp only at href
+          rw [href] at hres
+          refine ⟨{ ms with pos := t }, by simp [hres.1, hres.2], Or.inr ⟨hl, he, h1, ?_, h3, hinv'⟩⟩
+          simp [href]
+        | none =>
+          rw [hspec] at href; simp only at href
+          have : err ≠ 0 := by rw [hres.2]; exact href.2.1
+          exact ⟨ms, by simp [this], Or.inr ⟨hl, he, h1, by simp [href.2.2], h3, hinv'⟩⟩
   | callRead len =>
     rcases hR with hv | ⟨hl, he, h1, h2, h3, hi⟩
     · exact ⟨ms, by simp [monC20Seek, hv], Or.inl hv⟩
@@ -248,12 +247,13 @@ theorem sim_step (s : St) (o : Obs) (s' : St) (ms : SeekM) (hR : Rel s ms) (hs :
       · exact ⟨ms, by simp [monC20Seek, hvoid], Or.inl hvoid⟩
       · have hvoid' : ms.void = false := by simpa using hvoid
         have hcur : ms.cur = .reading len := by rw [h3, hc, hg.1]
-        simp only [monC20Seek, hvoid', hcur, h2, hg.2.1]
-        by_cases hok : 0 ≤ n ∧ n ≤ (len : Int) ∧ s.pos + n ≤ ms.size
-        · refine ⟨{ ms with cur := .gotRead n err }, by simp [hok], Or.inr ⟨hl, ?_, h1, h2, rfl, hinv'⟩⟩
-          rw [h1] at hok
+        have hoff : off = ms.pos := by rw [h2]; exact hg.2.1
+        by_cases hok : 0 ≤ n ∧ n ≤ (len : Int) ∧ ms.pos + n ≤ ms.size
+        · refine ⟨{ ms with cur := .gotRead n err }, by simp [monC20Seek, hvoid', hcur, hoff, hok],
+            Or.inr ⟨hl, ?_, h1, h2, rfl, hinv'⟩⟩
+          rw [h1, h2] at hok
           simp [he, readOk, hok]
-        · exact ⟨{ ms with void := true }, by simp [hok], Or.inl rfl⟩
+        · exact ⟨{ ms with void := true }, by simp [monC20Seek, hvoid', hcur, hoff, hok], Or.inl rfl⟩
   | retRead n err =>
     rcases hR with hv | ⟨hl, he, h1, h2, h3, hi⟩
     · exact ⟨ms, by simp [monC20Seek, hv], Or.inl hv⟩
